@@ -52,13 +52,16 @@ def gen_case(streams, tier, avoid):
         pos = f.choice(evals[:-1] or evals)
         op = case["ops"][pos]
         prog = progs[pos]
-        if op["entry"] not in prog["funcs"]:
+        # the failing evaluation is either the pipeline evaluated next (then "repaired") or another pipeline
+        entry = op["entry"] if f.random() < 0.5 else f.choice(gen.entries(prog))
+        if entry not in prog["funcs"]:
             continue
-        reach = sorted(gen.reachable(prog, op["entry"]))
+        reach = sorted(gen.reachable(prog, entry))
         target = f.choice(reach)
         at = target + (":end" if f.random() < 0.5 else "")
-        new = {"op": "eval", "entry": op["entry"], "style": op.get("style", "eval"), "snap": True,
-               "fail": {"at": at, "cls": f.choice(EXC)}}
+        style = op.get("style", "eval")
+        new = {"op": "eval", "entry": entry, "style": style if prog["funcs"][entry]["kind"] == "data" else "eval",
+               "snap": True, "fail": {"at": at, "cls": f.choice(EXC)}}
         case["ops"].insert(pos, new)
         progs.insert(pos, prog)
         evals = [i for i, op in enumerate(case["ops"]) if op["op"] == "eval"]
